@@ -8,6 +8,8 @@ import SpoxModel.Lemmas.BuildAlgOrder
 import SpoxModel.Lemmas.BuildAlgPlaced
 import SpoxModel.Lemmas.BuildAlgLexical
 import SpoxModel.Lemmas.BuildAlgArgsReq
+import SpoxModel.Lemmas.BuildAlgArgs
+import SpoxModel.Lemmas.BuildAlgDfsMany
 import SpoxModel.Lemmas.BridgeWalk
 import SpoxModel.Lemmas.BridgeFacts
 import SpoxModel.Props.C01
@@ -172,6 +174,22 @@ theorem visit_spec_inputs (p : Prog) (hwf : WF p) (g : Nat) :
     visit_nodup (rankV p) hrank p.fuel _ [] List.nodup_nil,
     fun x => mem_visit_iff (rankV p) hrank p.fuel _ x hf⟩
 
+/-- **dfs_many_spec** (round 10): `iterative_dfs(sources, adj)` as the driver runs it against the real
+    function (`visitMany`: one `visit` per source, shared visited list), on ANY graph with a rank
+    function (a DAG — for programs: creation order): the returned post-order lists every vertex after
+    all of its successors, lists nothing twice, and lists exactly what the sources reach. -/
+theorem dfs_many_spec {α : Type} [DecidableEq α] (adj : α → List α) (rank : α → Nat)
+    (hrank : ∀ v, ∀ w ∈ adj v, rank w < rank v) (fuel : Nat) (sources : List α)
+    (hf : ∀ s ∈ sources, rank s < fuel) :
+    Closed adj (visitMany adj fuel sources []) ∧ (visitMany adj fuel sources []).Nodup ∧
+    ∀ x, x ∈ visitMany adj fuel sources [] ↔ ∃ s ∈ sources, Reach adj s x := by
+  obtain ⟨c, n, _, i⟩ := visitMany_spec rank hrank fuel sources [] hf (closed_nil _) List.nodup_nil
+  exact ⟨c, n, fun x => by rw [i x]; simp⟩
+
+/-- the diamond with a duplicate successor of `lib_dfstie` (3 → 1, 0, 2, 2; 2 → 0, 1; 1 → 0), two sources -/
+example : visitMany (fun v => ([[], [0], [0, 1], [1, 0, 2, 2]][v]?).getD []) 6 [1, 3] [] = [0, 1, 2, 3] := by
+  decide
+
 /-! ### leaks to an outer scope are rejected at build time -/
 
 /-- `Below p s g`: the body `s` is held by a node that `g` reaches through input edges, or by a node
@@ -271,6 +289,87 @@ theorem leak_rejected (p : Prog) (hwf : WF p) (g s : Nat) (hg : g = 0 ∨ Below 
     · subst hg; simpa using h0
     · simpa using (below_claimed p hwf st hdi hg h0).1
   exact no_outer_leak p hwf b tr h g s hg' hs pg l hpg hl a ha hleak
+
+/-! ### a body held by two operator applications is rejected (round 10: the multiple-owner check,
+    lifted from the single test `multiple_owner_rejected` to every build, any nesting depth) -/
+
+/-- Everything the main source reaches through input AND subgraph edges is reached, through input
+    edges only, by the main graph or by a body below it. -/
+theorem reach_full_split (p : Prog) {v : V} (h : Reach p.adjFull (.src 0) v) :
+    ∃ G, (G = 0 ∨ Below p G 0) ∧ Reach p.adjIn (.src G) v := by
+  induction h with
+  | refl => exact ⟨0, .inl rfl, Reach.refl _⟩
+  | @step u w _ hw ih =>
+    obtain ⟨G, hG, hrG⟩ := ih
+    cases u with
+    | src g => exact ⟨G, hG, Reach.step hrG hw⟩
+    | node n =>
+      simp only [Prog.adjFull, List.mem_append, List.mem_map] at hw
+      rcases hw with ⟨i, hi, rfl⟩ | ⟨s, hs, rfl⟩
+      · exact ⟨G, hG, Reach.step hrG (by simp only [Prog.adjIn, List.mem_map]; exact ⟨i, hi, rfl⟩)⟩
+      · refine ⟨s, .inr ?_, Reach.refl _⟩
+        have hb : Below p s G := Below.direct hrG hs
+        rcases hG with hG | hG
+        · subst hG; exact hb
+        · exact Below.trans hG hb
+
+/-- … and conversely (so `G = 0 ∨ Below p G 0` is exactly "the body `G` is reachable"). -/
+theorem below_reach_full (p : Prog) {s g : Nat} (h : Below p s g) :
+    Reach p.adjFull (.src g) (.src s) := by
+  have hin : ∀ {u v : V}, Reach p.adjIn u v → Reach p.adjFull u v := by
+    intro u v hr
+    induction hr with
+    | refl => exact Reach.refl _
+    | @step a c _ hw ih =>
+      refine Reach.step ih ?_
+      cases a with
+      | src g => exact hw
+      | node n =>
+        simp only [Prog.adjIn, List.mem_map] at hw
+        simp only [Prog.adjFull, List.mem_append, List.mem_map]
+        exact .inl hw
+  induction h with
+  | @direct g n s hr hs =>
+    exact Reach.step (hin hr) (by simp only [Prog.adjFull, List.mem_append, List.mem_map]; exact .inr ⟨s, hs, rfl⟩)
+  | trans _ _ ih1 ih2 => exact Reach.trans ih1 ih2
+
+/-- **owner_unique**: in a successful build the recorded owner (`scope_tree.subgraph_owner`) of every
+    body held by an operator application some requested output depends on is THAT application — so
+    the `parent` function all scoping theorems talk about is well defined on the program, not only on
+    the Builder's table. -/
+theorem owner_unique (p : Prog) (hwf : WF p) (b : Built) (tr : List Ev)
+    (h : build p = .ok (b, tr)) (n s : Nat) (hn : Reach p.adjFull (.src 0) (.node n))
+    (hs : s ∈ p.subs n) : lookupN b.owner s = some n := by
+  obtain ⟨st, hdi, h0, _, hown, _⟩ := discover_final p hwf b tr h
+  obtain ⟨G, hG, hr⟩ := reach_full_split p hn
+  have hG' : G ∈ st.topo := by
+    rcases hG with hG | hG
+    · subst hG; exact h0
+    · exact (below_claimed p hwf st hdi hG h0).1
+  have hmem : V.node n ∈ p.postIn G :=
+    (mem_visit_iff (rankV p) (rank_adjIn p hwf) p.fuel _ _ (rank_src_lt_fuel p hwf G)).mpr hr
+  rw [hown]
+  exact hdi.OU G hG' n hmem s hs
+
+/-- **shared_body_rejected**: if two DIFFERENT operator applications some requested output depends on
+    (through input and subgraph edges: main program or any body, any depth) hold the same graph in
+    their attributes, `build` never returns a model (`BuildError` "multiple owners", or any earlier
+    error). Without the rejection the body's applications would be emitted once per holder. -/
+theorem shared_body_rejected (p : Prog) (hwf : WF p) (n1 n2 s : Nat) (hne : n1 ≠ n2)
+    (h1 : Reach p.adjFull (.src 0) (.node n1)) (h2 : Reach p.adjFull (.src 0) (.node n2))
+    (hs1 : s ∈ p.subs n1) (hs2 : s ∈ p.subs n2) : ∀ b tr, build p ≠ .ok (b, tr) := by
+  intro b tr h
+  have e1 := owner_unique p hwf b tr h n1 s h1 hs1
+  have e2 := owner_unique p hwf b tr h n2 s h2 hs2
+  rw [e1] at e2
+  exact hne (Option.some.inj e2)
+
+/-- **bodies_emitted_under_owner** (corollary): every emitted operator application holding a body is
+    the recorded owner of that body. -/
+theorem emitted_owner (p : Prog) (hwf : WF p) (b : Built) (tr : List Ev)
+    (h : build p = .ok (b, tr)) (n s : Nat) (hn : V.node n ∈ emitted tr) (hs : s ∈ p.subs n) :
+    lookupN b.owner s = some n :=
+  owner_unique p hwf b tr h n s ((emitted_iff_reachable p hwf b tr h _).mp hn).1 hs
 
 /-! ### least enclosing scope, on the algorithm (the scope tree changes while graphs are processed) -/
 
@@ -926,6 +1025,90 @@ theorem double_introduction_rejected (p : Prog) (rec : Nat → CState → Except
     (cs : CState) (v : V) (h : v ∈ cs.intro) : emitStep p rec cs v = .error .scope := by
   simp [emitStep, h]
 
+/-! ### an Argument listed by two graphs is rejected (round 10: `claimed_twice_rejected` lifted to every
+    build; invariant `ArgsSeg` of the compile walk, `Lemmas/BuildAlgArgs`) -/
+
+/-- a reachable body other than main is held by a reachable node -/
+theorem reach_src_holder (p : Prog) : ∀ x, Reach p.adjFull (.src 0) x → ∀ G, x = V.src G →
+    G = 0 ∨ ∃ n, Reach p.adjFull (.src 0) (.node n) ∧ G ∈ p.subs n := by
+  intro x hx
+  cases hx with
+  | refl => intro G hG; left; cases hG; rfl
+  | @step v _ hr hw =>
+    intro G hG
+    subst hG
+    right
+    cases v with
+    | src g => simp [Prog.adjFull] at hw
+    | node n =>
+      simp only [Prog.adjFull, List.mem_append, List.mem_map] at hw
+      rcases hw with ⟨i, _, hi⟩ | ⟨s, hs, hs'⟩
+      · cases hi
+      · cases hs'; exact ⟨n, hr, hs⟩
+
+/-- every reachable graph is entered by the compile walk of a successful build -/
+theorem reachable_graph_entered (p : Prog) (hwf : WF p) (b : Built) (tr : List Ev)
+    (h : build p = .ok (b, tr)) (G : Nat) (hG : G = 0 ∨ Below p G 0) :
+    Ev.enter G ∈ tr ∧
+    (∀ g1 g2, Ev.enter g1 ∈ tr → Ev.enter g2 ∈ tr → g1 ≠ g2 →
+      ∀ a ∈ lookupL b.argsOf g1, a ∉ lookupL b.argsOf g2) := by
+  obtain ⟨cs, hc, htr⟩ := build_compile p b tr h
+  obtain ⟨new, ⟨t, _, _, d, e⟩, h0⟩ := args_compileG p b _ _ _ _ hc
+  simp only [List.append_nil] at t
+  have hmem : ∀ ev, ev ∈ tr ↔ ev ∈ new := by
+    intro ev; rw [htr, t]; exact List.mem_reverse
+  refine ⟨?_, ?_⟩
+  · rw [hmem]
+    have hr : Reach p.adjFull (.src 0) (.src G) := by
+      rcases hG with hG | hG
+      · subst hG; exact Reach.refl _
+      · exact below_reach_full p hG
+    rcases reach_src_holder p _ hr G rfl with h1 | ⟨n, hn, hs⟩
+    · subst h1; exact h0
+    · have hna : p.isArg n = false := by
+        cases hq : p.isArg n with
+        | false => rfl
+        | true =>
+          have := (hwf.arg_leaf n hq).2
+          rw [this] at hs; cases hs
+      have hem : V.node n ∈ emitted tr :=
+        (emitted_iff_reachable p hwf b tr h _).mpr ⟨hn, by simpa [V.isArgOf] using hna⟩
+      have := emit_mem_of_emitted tr _ hem
+      exact e n ((hmem _).mp this) G hs
+  · intro g1 g2 h1 h2
+    exact d g1 g2 ((hmem _).mp h1) ((hmem _).mp h2)
+
+/-- **shared_argument_rejected**: if two DIFFERENT graphs some requested output depends on (the main
+    graph or bodies at any depth, nested in each other or not) both list the same Argument in their
+    requested argument lists, `build` never returns a model — whether `discover`'s "already claimed"
+    test (nested case) or the flat `Scope`'s `ScopeError` (sibling case) fires. -/
+theorem shared_argument_rejected (p : Prog) (hwf : WF p) (G1 G2 : Nat) (hne : G1 ≠ G2)
+    (h1 : G1 = 0 ∨ Below p G1 0) (h2 : G2 = 0 ∨ Below p G2 0)
+    (pg1 pg2 : PGraph) (l1 l2 : List Nat) (hp1 : p.graphs[G1]? = some pg1) (hl1 : pg1.args = some l1)
+    (hp2 : p.graphs[G2]? = some pg2) (hl2 : pg2.args = some l2) (a : Nat) (ha1 : a ∈ l1) (ha2 : a ∈ l2) :
+    ∀ b tr, build p ≠ .ok (b, tr) := by
+  intro b tr h
+  obtain ⟨st, hdi, h0, htopo, _⟩ := discover_final p hwf b tr h
+  have hin : ∀ G, (G = 0 ∨ Below p G 0) → G ∈ b.graphTopo := by
+    intro G hG
+    rw [htopo]
+    rcases hG with hG | hG
+    · subst hG; simpa using h0
+    · simpa using (below_claimed p hwf st hdi hG h0).1
+  have hreq := (arguments_of_requested p b tr h).1
+  have e1 := hreq G1 pg1 l1 (hin G1 h1) hp1 hl1
+  have e2 := hreq G2 pg2 l2 (hin G2 h2) hp2 hl2
+  obtain ⟨en1, hd⟩ := reachable_graph_entered p hwf b tr h G1 h1
+  obtain ⟨en2, _⟩ := reachable_graph_entered p hwf b tr h G2 h2
+  exact hd G1 G2 en1 en2 hne a (by rw [e1]; exact ha1) (by rw [e2]; exact ha2)
+
+/-- the positive form: in a successful build the argument lists of the entered graphs are pairwise
+    disjoint (each graph input of the nested ModelProto is declared by exactly one graph) -/
+theorem arguments_disjoint (p : Prog) (hwf : WF p) (b : Built) (tr : List Ev)
+    (h : build p = .ok (b, tr)) (g1 g2 : Nat) (h1 : Ev.enter g1 ∈ tr) (h2 : Ev.enter g2 ∈ tr)
+    (hne : g1 ≠ g2) : ∀ a ∈ lookupL b.argsOf g1, a ∉ lookupL b.argsOf g2 :=
+  (reachable_graph_entered p hwf b tr h 0 (.inl rfl)).2 g1 g2 h1 h2 hne
+
 /-! ### non-vacuity: the nested-If program of the design probe, an outer leak, a sibling leak -/
 
 /-- ids: 0 x, 1 c (arguments); 2 e = Neg(x); 3 Neg(e) [outer else]; 4 Add(e, x) [inner then];
@@ -1004,6 +1187,52 @@ example : ∃ b tr, build exLoop = .ok (b, tr) ∧ Bridge.mainCleanB exLoop b = 
   refine ⟨_, _, rfl, ?_⟩; decide
 example : ∃ b tr, build exNested = .ok (b, tr) ∧ Bridge.mainCleanB exNested b = true := by
   refine ⟨_, _, rfl, ?_⟩; decide
+
+/-- one Graph object handed to two If nodes (round 10): 0 x, 1 c (arguments); 2 Neg(x);
+    3 If(c){[x], [2]}; 4 If(c){the SAME two graphs}; 5 Add(3, 4) -/
+def exTwoOwners : Prog :=
+  { nodes := [⟨true, [], []⟩, ⟨true, [], []⟩, ⟨false, [0], []⟩, ⟨false, [1], [1, 2]⟩,
+              ⟨false, [1], [1, 2]⟩, ⟨false, [3, 4], []⟩],
+    graphs := [⟨some [0, 1], [5]⟩, ⟨some [], [0]⟩, ⟨some [], [2]⟩] }
+
+example : exTwoOwners.WFb = true := by decide
+example : build exTwoOwners = .error (.build "multiple-owners") := by rfl
+
+/-- the hypotheses of `shared_body_rejected` are satisfiable (conclusion = what the model computes) -/
+example : ∀ b tr, build exTwoOwners ≠ .ok (b, tr) := by
+  have r5 : Reach exTwoOwners.adjFull (.src 0) (.node 5) := Reach.step (Reach.refl _) (by decide)
+  exact shared_body_rejected exTwoOwners (wf_of_wfb _ (by decide)) 3 4 1 (by decide)
+    (Reach.step r5 (by decide)) (Reach.step r5 (by decide)) (by decide) (by decide)
+
+/-- `owner_unique` on the probe: the inner If (5) is the recorded owner of both of its bodies, the
+    outer If (6) of the other two -/
+example : ∃ b tr, build exNested = .ok (b, tr) ∧ lookupN b.owner 1 = some 5 ∧
+    lookupN b.owner 2 = some 5 ∧ lookupN b.owner 3 = some 6 ∧ lookupN b.owner 4 = some 6 := by
+  refine ⟨_, _, rfl, ?_, ?_, ?_, ?_⟩ <;> decide
+
+/-- two sibling Loop bodies built over the SAME argument list (round 10): 0, 1 main arguments; 2, 3, 4
+    the shared formals; 5 = f(4, 0) in the first body; 6 = Loop(0){g1}; 7 = f(4, 3) in the second body;
+    8 = Loop(6){g2} -/
+def exSharedArgs : Prog :=
+  { nodes := [⟨true, [], []⟩, ⟨true, [], []⟩, ⟨true, [], []⟩, ⟨true, [], []⟩, ⟨true, [], []⟩,
+              ⟨false, [4, 0], []⟩, ⟨false, [0], [1]⟩, ⟨false, [4, 3], []⟩, ⟨false, [6], [2]⟩],
+    graphs := [⟨some [0, 1], [8]⟩, ⟨some [2, 3, 4], [3, 5]⟩, ⟨some [2, 3, 4], [3, 7]⟩] }
+
+example : exSharedArgs.WFb = true := by decide
+example : build exSharedArgs = .error .scope := by rfl
+
+/-- the hypotheses of `shared_argument_rejected` are satisfiable (conclusion = what the model computes) -/
+example : ∀ b tr, build exSharedArgs ≠ .ok (b, tr) := by
+  have r8 : Reach exSharedArgs.adjIn (.src 0) (.node 8) := Reach.step (Reach.refl _) (by decide)
+  have r6 : Reach exSharedArgs.adjIn (.src 0) (.node 6) := Reach.step r8 (by decide)
+  exact shared_argument_rejected exSharedArgs (wf_of_wfb _ (by decide)) 1 2 (by decide)
+    (.inr (Below.direct r6 (by decide))) (.inr (Below.direct r8 (by decide)))
+    ⟨some [2, 3, 4], [3, 5]⟩ ⟨some [2, 3, 4], [3, 7]⟩ [2, 3, 4] [2, 3, 4] rfl rfl rfl rfl 4
+    (by decide) (by decide)
+
+/-- `arguments_disjoint` / `reachable_graph_entered` on the probe: all five graphs are entered -/
+example : ∃ b tr, build exNested = .ok (b, tr) ∧ Ev.enter 0 ∈ tr ∧ Ev.enter 2 ∈ tr ∧ Ev.enter 4 ∈ tr := by
+  refine ⟨_, _, rfl, ?_, ?_, ?_⟩ <;> decide
 
 /-- sibling leak (design probe p4): the second Loop body uses the first body's argument 4. The
     Builder itself does not object (`build` succeeds, both bodies hang off the main graph); it is the
